@@ -23,7 +23,7 @@ from fractions import Fraction as Fr
 
 from .core import Undecided
 from .forks import Fork
-from .ratfun import Rat
+from .ratfun import Rat, satom
 from . import vs
 
 
@@ -313,6 +313,9 @@ class Interp(object):
             return Builtin(name, cp)
         if name in self.model.classes:
             return ClassV(self.model.classes[name])
+        if name in _PY_BUILTINS and name != 'isinstance':
+            return Builtin(name, lambda *a, **k: self.py_builtin(
+                name, list(a), k, None, None, None))
         cands = self.model.func_by_name.get(name)
         if cands:
             rel, fn = cands[0]
@@ -367,6 +370,8 @@ class Interp(object):
                                     % (p, func.name))
             if isinstance(node, ast.Lambda):
                 return self.ev(node.body, scope, func)
+            if self.depth == 1:
+                self.last_scope = scope
             try:
                 self.exec_block(node.body, scope, func)
             except _Return as r:
@@ -410,10 +415,10 @@ class Interp(object):
             if op.linear:
                 tot = Rat.const(0)
                 for k, c in xv.items():
-                    tot = tot + c * Rat.var(('F', op.term.key(), k))
+                    tot = tot + c * Rat.var(satom('F', op.term.key(), k))
                 return tot
             fz = vs.freeze(xv)
-            return Rat.var(('F', op.term.key(), fz))
+            return Rat.var(satom('F', op.term.key(), fz))
         if isinstance(op.domain, FieldV) or is_scalar(x):
             raise Undecided('operator on a field domain')
         xv = self.vec_val(x, op.domain)
@@ -576,14 +581,21 @@ class Interp(object):
                     'norm', 'abs', 'real', 'imag', 'F', 'red'))
                 for v in r_.vars())
             if name in ('real',):
-                return obj if isreal else Rat.var(('real', r_))
+                return obj if isreal else Rat.var(satom('real', r_))
             if name in ('conjugate', 'conj'):
                 return Builtin('conj', lambda o=obj: vs.conj_scalar(
                     to_rat(o), self.real_scalars))
             if name == 'imag':
-                return 0 if isreal else Rat.var(('imag', r_))
+                return 0 if isreal else Rat.var(satom('imag', r_))
         if isinstance(obj, (list, tuple)) and name == 'append':
             return Builtin('append', obj.append)
+        if isinstance(obj, str) and name in ('lower', 'upper', 'strip',
+                                             'format', 'startswith',
+                                             'endswith', 'join'):
+            return Builtin('str.' + name, getattr(obj, name))
+        if isinstance(obj, dict) and name in ('items', 'keys', 'values'):
+            return Builtin('dict.' + name, lambda: list(getattr(obj,
+                                                                name)()))
         raise Undecided('attribute %s of %r' % (name, obj))
 
     def op_attr(self, op, name):
@@ -669,14 +681,12 @@ class Interp(object):
         if name == 'ufuncs':
             return _Ufuncs(self, v)
         if name == 'norm':
-            return Builtin('norm', lambda: Rat.var(('norm',
+            return Builtin('norm', lambda: Rat.var(satom('norm',
                                                     vs.freeze(v.val))))
         if name == 'inner':
-            return Builtin('inner', lambda o: Rat.var((
-                'inner', vs.freeze(v.val), vs.freeze(I.vec_val(o)))))
+            return Builtin('inner', lambda o: Rat.var(satom('inner', vs.freeze(v.val), vs.freeze(I.vec_val(o)))))
         if name == 'dist':
-            return Builtin('dist', lambda o: Rat.var((
-                'norm', vs.freeze(vs.add(v.val, I.vec_val(o), -1)))))
+            return Builtin('dist', lambda o: Rat.var(satom('norm', vs.freeze(vs.add(v.val, I.vec_val(o), -1)))))
         if name == 'T':
             raise Undecided('vector.T')
         if name in ('shape', 'dtype', 'size', 'ndim'):
@@ -718,7 +728,7 @@ class Interp(object):
                 else:
                     raise Undecided('ufunc argument %r' % (a,))
             if name in ('sum', 'max', 'min', 'prod'):
-                return Rat.var(('red', name, vs.freeze(v.val)))
+                return Rat.var(satom('red', name, vs.freeze(v.val)))
             r = vs.fn(name, v.val, *fa)
             if out is None:
                 return Vec(r, v.space)
@@ -739,7 +749,7 @@ class Interp(object):
                 r = to_rat(v)
                 if r.is_const():
                     return Rat.const(abs(r.constant()))
-                return Rat.var(('abs', r))
+                return Rat.var(satom('abs', r))
             return Builtin('np.abs', ab)
         if name == 'isscalar':
             return Builtin('np.isscalar', lambda v: is_scalar(v))
@@ -748,7 +758,7 @@ class Interp(object):
                 r = to_rat(v)
                 if r.is_const() and r.constant() in (0, 1):
                     return r
-                return Rat.var(('sqrt', r))
+                return Rat.var(satom('sqrt', r))
             return Builtin('np.sqrt', sq)
         if name in ('conj', 'conjugate'):
             def npconj(v):
@@ -762,6 +772,26 @@ class Interp(object):
         if name == 'isnan':
             return Builtin('np.isnan', lambda v: isinstance(v, Opaque)
                            and v.desc == 'np.nan')
+        if name == 'isfinite':
+            return Builtin('np.isfinite', lambda v: not isinstance(v, Opaque))
+        if name in ('maximum', 'minimum'):
+            def mm(a, b, out=None):
+                if isinstance(a, Vec):
+                    r = vs.fn(name, a.val, b.val if isinstance(b, Vec)
+                              else to_rat(b))
+                    if out is None:
+                        return Vec(r, a.space)
+                    out.val = r
+                    return out
+                raise Undecided('np.%s of scalars' % name)
+            return Builtin('np.' + name, mm)
+        if name in ('asarray', 'array'):
+            return Builtin('np.asarray', lambda v, **k: v)
+        if name in ('any', 'all', 'less', 'greater', 'less_equal',
+                    'greater_equal'):
+            return Builtin('np.' + name, lambda *a, **k: Opaque('np.' + name))
+        if name == 'random':
+            return ModuleV('np.random')
         raise Undecided('np.%s' % name)
 
     def space_attr(self, s, name):
@@ -1119,8 +1149,9 @@ class Interp(object):
                           ClassV, Builtin)):
             return True
         if isinstance(v, Opaque):
-            return self.decide('opaque:%s:%s' % (
-                v.desc, ast.unparse(node) if node is not None else ''), node)
+            return self.decide_cond(_Cond('opaque:%s:%s' % (
+                v.desc, ast.unparse(node) if node is not None else '')),
+                node)
         raise Undecided('truth value of %r' % (v,))
 
     # ---- expressions -----------------------------------------------------------
@@ -1181,8 +1212,26 @@ class Interp(object):
             return self.subscript(obj, n.slice, scope, func)
         if isinstance(n, ast.Lambda):
             return Func(n, scope, func.ci if func else None)
-        if isinstance(n, (ast.ListComp, ast.GeneratorExp)):
-            return self.comprehension(n, scope, func)
+        if isinstance(n, (ast.ListComp, ast.GeneratorExp, ast.SetComp)):
+            r = self.comprehension(n, scope, func)
+            return _uniq(r) if isinstance(n, ast.SetComp) else r
+        if isinstance(n, ast.DictComp):
+            if len(n.generators) != 1:
+                raise Undecided('nested comprehension')
+            g = n.generators[0]
+            it = self.ev(g.iter, scope, func)
+            if isinstance(it, PVec):
+                it = it.parts
+            out = {}
+            sub = _Scope(scope)
+            for item in it:
+                self.assign(g.target, item, sub, func)
+                if all(self.truth(c, sub, func) for c in g.ifs):
+                    out[self.ev(n.key, sub, func)] = self.ev(n.value, sub,
+                                                             func)
+            return out
+        if isinstance(n, ast.Set):
+            return _uniq(self._elts(n.elts, scope, func))
         if isinstance(n, ast.JoinedStr):
             return '<fstring>'
         if isinstance(n, ast.Starred):
@@ -1258,7 +1307,7 @@ class Interp(object):
             if isinstance(r, _Cond):
                 if len(n.ops) == 1:
                     return r
-                r = self.decide(r.key, n)
+                r = self.truth_value(r, n)
             if not r:
                 return False
             left = right
@@ -1293,7 +1342,7 @@ class Interp(object):
                 c = d.constant()
                 return {ast.Lt: c < 0, ast.LtE: c <= 0, ast.Gt: c > 0,
                         ast.GtE: c >= 0}[type(op)]
-            return _Cond('%s:%r' % (type(op).__name__, d))
+            return _Cond('%s:%r' % (type(op).__name__, d), d)
         if isinstance(l, Opaque) or isinstance(r, Opaque):
             return _Cond('cmp:%s' % ast.unparse(node))
         raise Undecided('comparison %s' % ast.unparse(node))
@@ -1386,7 +1435,7 @@ class Interp(object):
                 if isinstance(r, Rat) and r.is_const() and \
                         r.constant().denominator == 1:
                     return a ** int(r.constant())
-                return Rat.var(('pow', a, b))
+                return Rat.var(satom('pow', a, b))
             raise Undecided('scalar operator %s' % op.__name__)
         lv, rv = isinstance(l, Vec), isinstance(r, Vec)
         if lv and rv:
@@ -1581,7 +1630,7 @@ class Interp(object):
                 r = to_rat(v)
                 if r.is_const():
                     return Rat.const(abs(r.constant()))
-                return Rat.var(('abs', r))
+                return Rat.var(satom('abs', r))
         if name == 'callable':
             return isinstance(args[0], (Func, Bound, Builtin, OpV, ClassV,
                                         Inst))
@@ -1591,7 +1640,14 @@ class Interp(object):
                 return ClassV(v.ci)
             return Opaque('type')
         if name == 'str' or name == 'repr':
-            return '<str>'
+            return args[0] if args and isinstance(args[0], str) else '<str>'
+        if name == 'set':
+            return _uniq(list(args[0])) if args else []
+        if name == 'dict':
+            return dict(args[0]) if args else dict(kwargs)
+        if name in ('sorted', 'reversed'):
+            a = list(args[0])
+            return sorted(a) if name == 'sorted' else a[::-1]
         if name == 'all':
             return all(self.truth_value(v) for v in args[0])
         if name == 'any':
@@ -1664,6 +1720,14 @@ class Interp(object):
         raise Undecided('isinstance(%r, %s)' % (v, nm))
 
 
+def _uniq(seq):
+    out = []
+    for v in seq:
+        if not any(v is w or (type(v) is type(w) and v == w) for w in out):
+            out.append(v)
+    return out
+
+
 class _Cond(object):
     """An undecided boolean with a stable key (forked when its truth value
     is needed)."""
@@ -1713,7 +1777,8 @@ class _Ufuncs(object):
         self.v = v
 
 
-_PY_BUILTINS = {'isinstance', 'getattr', 'hasattr', 'len', 'int', 'float',
+_PY_BUILTINS = {'set', 'dict', 'sorted', 'reversed',
+                'isinstance', 'getattr', 'hasattr', 'len', 'int', 'float',
                 'complex', 'range', 'zip', 'enumerate', 'tuple', 'list',
                 'abs', 'callable', 'type', 'str', 'repr', 'all', 'any',
                 'max', 'min', 'sum', 'bool', 'print', 'iter', 'id'}
